@@ -232,6 +232,20 @@ def run(ctx):
         cases.append({"id": len(cases) + 1, "flags": v["flags"], "opts": v["opts"], "files": k % 2 == 0, "data": datas[key],
                       "mode": modes[k % len(modes)], "conc": [1, 4][k % 2], "n": len(data), "datakey": key})
         k += 1
+    # content that repeats at a distance of exactly 64 KiB (one more than the largest offset the format has), block sizes
+    # of 256K and more, level 0
+    k = 0
+    for vi, v in enumerate(vectors):
+        if v["flags"]["size"] == "64K" or v["flags"]["l"] != 0 or (q and vi % 4):
+            continue
+        r2 = random.Random(4242 + k)
+        period = bytes(r2.randrange(256) for _ in range(65536))
+        data = (period * 4)[:200000 + k]
+        key = (-2, k % 2)
+        datas.setdefault(key, data)
+        cases.append({"id": len(cases) + 1, "flags": v["flags"], "opts": v["opts"], "files": k % 2 == 0, "data": datas[key],
+                      "mode": modes[k % len(modes)], "conc": [1, 4][k % 2], "n": len(datas[key]), "datakey": key})
+        k += 1
     # library Writer output for (options, data): what the command must emit
     libcases, libkey = [], {}
     for c in cases:
